@@ -296,3 +296,48 @@ func ClosureFlag(a api) (stored bool) {
 	}
 	return stored
 }
+
+type names struct{ Kind, Plural, Singular string }
+
+// TableCompare: the comparisons are the rows of a local table; a row appended
+// under a condition only runs under it. Written out row by row there is no
+// loop left, and each comparison is between the two fields the row names.
+func TableCompare(a, b *names, strict bool) error {
+	rows := []struct {
+		x, y string
+		opt  bool
+	}{
+		{x: a.Kind, y: b.Kind},
+		{x: a.Plural, y: b.Plural, opt: true},
+	}
+	if strict {
+		rows = append(rows, struct {
+			x, y string
+			opt  bool
+		}{x: a.Singular, y: b.Singular})
+	}
+	for _, r := range rows {
+		if r.opt && r.x == "" {
+			continue
+		}
+		if r.x != r.y {
+			continue
+		}
+		return errors.New("conflict")
+	}
+	return nil
+}
+
+// BundleMax: accumulators kept in the fields of a local struct and handed on
+// by copying the struct are plain locals once the bundle is taken apart.
+func BundleMax(xs []int) int {
+	s := struct{ max, idx int }{idx: -1}
+	for i, x := range xs {
+		if x > s.max {
+			s.max = x
+			s.idx = i
+		}
+	}
+	out := s
+	return out.idx
+}
